@@ -361,6 +361,11 @@ func TestC10Regress(t *testing.T) { vt.Regress(t, prop, "testdata", run) }
 type ConcCase struct {
 	Clients int     `json:"clients"`
 	Ops     [][]int `json:"ops"` // per client: operation kinds (0 put 1 delete-range 2 txn(increment) 3 txn(empty branch) 4 linearizable read 5 serializable read 6 read-only txn)
+	// Cluster test only - one replica of the table is HELD BACK: every apply call of that node's table state machine takes StallUs
+	// microseconds longer (the hook sleeps on that node's apply path), so the node applies acknowledged writes late while it keeps
+	// taking part in consensus.  Stall: 0 nobody, 1-3 that node, 4 the node that leads the table's raft group.
+	Stall   int `json:"stall,omitempty"`
+	StallUs int `json:"stall_us,omitempty"`
 }
 
 func genConc(t *rapid.T) ConcCase {
@@ -370,6 +375,24 @@ func genConc(t *rapid.T) ConcCase {
 	}
 	return c
 }
+
+func genConcCluster(t *rapid.T) ConcCase {
+	c := genConc(t)
+	if rapid.Bool().Draw(t, "stalled") {
+		c.Stall = rapid.SampledFrom([]int{1, 2, 3, 4, 4, 4}).Draw(t, "stall")
+		c.StallUs = rapid.SampledFrom([]int{500, 2000, 6000}).Draw(t, "stallus")
+	}
+	return c
+}
+
+type stallSpec struct {
+	table string
+	node  int
+	d     time.Duration
+	hits  atomic.Int64
+}
+
+var clStall atomic.Pointer[stallSpec]
 
 var (
 	engOnce sync.Once
@@ -408,11 +431,19 @@ var (
 // client i talks to node i mod 3, so writes acknowledged by one node are read - linearizably or not - through replicas that apply them
 // a little later.
 func runCluster(c ConcCase, o *vt.Obs) *vt.Failure {
-	clOnce.Do(func() { clFx, clErr = enginefx.StartCluster(3, enginefx.Opts{MaxInMemLogSize: 6 * 1024 * 1024}) })
+	clOnce.Do(func() {
+		clFx, clErr = enginefx.StartCluster(3, enginefx.Opts{MaxInMemLogSize: 6 * 1024 * 1024, AppliedNode: func(node int, table string, rev uint64) {
+			if sp := clStall.Load(); sp != nil && sp.node == node && sp.table == table {
+				sp.hits.Add(1)
+				time.Sleep(sp.d)
+			}
+		}})
+	})
 	if clErr != nil {
 		vt.Inconclusive("C10 cluster fixture: " + clErr.Error())
 		return nil
 	}
+	defer clStall.Store(nil)
 	return runConcOn(c, o, clFx)
 }
 
@@ -423,6 +454,27 @@ func runConcOn(c ConcCase, o *vt.Obs, nodes []*enginefx.Fixture) *vt.Failure {
 		return nil
 	}
 	defer enginefx.ClusterDropTable(nodes, name)
+	var stall *stallSpec
+	if c.Stall > 0 && len(nodes) > 1 {
+		node := c.Stall - 1
+		if c.Stall == 4 {
+			node = -1
+			if tb, err := nodes[0].E.GetTable(name); err == nil {
+				if id, _, ok, err := nodes[0].E.NodeHost.GetLeaderID(tb.ClusterID); err == nil && ok && id >= 1 && int(id) <= len(nodes) {
+					node = int(id) - 1
+				}
+			}
+		}
+		if node >= 0 && node < len(nodes) {
+			stall = &stallSpec{table: name, node: node, d: time.Duration(c.StallUs) * time.Microsecond}
+			clStall.Store(stall)
+			if c.Stall == 4 {
+				o.Label("cluster-leader-replica-held-back")
+			} else {
+				o.Label("cluster-one-replica-held-back")
+			}
+		}
+	}
 	var clock atomic.Int64
 	var mu sync.Mutex
 	var events []event
@@ -619,7 +671,7 @@ func TestC10Conc(t *testing.T)        { vt.Check(t, prop, genConc, runConc) }
 func TestC10ConcReplay(t *testing.T)  { vt.Replay(t, prop, runConc) }
 func TestC10ConcRegress(t *testing.T) { vt.Regress(t, prop, "testdata", runConc) }
 
-func TestC10Cluster(t *testing.T)        { vt.Check(t, prop, genConc, runCluster) }
+func TestC10Cluster(t *testing.T)        { vt.Check(t, prop, genConcCluster, runCluster) }
 func TestC10ClusterReplay(t *testing.T)  { vt.Replay(t, prop, runCluster) }
 func TestC10ClusterRegress(t *testing.T) { vt.Regress(t, prop, "testdata", runCluster) }
 
